@@ -62,7 +62,10 @@ def h_thumbprint(ctx):
     how = ctx.choose("origin", origins)
     private = ctx.choose("private", [True] if kty == "oct" else [True, False])
     extras = ctx.choose("optional_members", [None, {"kid": "my-kid", "use": "sig", "alg": "X"}, {"key_ops": ["sign", "verify"], "x5t": "abc"}])
-    order = ctx.choose("member_order", ["given", "reversed", "given, string members as str subclasses"] if how == "dict" else ["given"])
+    orders = ["given", "reversed", "given, string members as str subclasses"] if how == "dict" else ["given"]
+    if how == "dict" and jwk.get("crv") == "X25519":
+        orders.append("given, x with the bit RFC 7748 tells implementations to ignore set")
+    order = ctx.choose("member_order", orders)
     digest = ctx.choose("digest", ["sha256", "sha384", "sha512"])
     pub = rjwk.public_of(jwk)
     want = rjwk.thumbprint(pub, digest)
@@ -72,6 +75,15 @@ def h_thumbprint(ctx):
             src.update(copy.deepcopy(extras))
         if order == "reversed":
             src = dict(reversed(list(src.items())))
+        elif order.startswith("given, x with the bit") and not private:
+            return Outcome("n/a", [], nontrivial=None)      # a public JWK is what it says; the clause is about a private JWK whose x contradicts its d
+        elif order.startswith("given, x with the bit"):
+            # the same Montgomery point to an X25519 implementation, other octets to a thumbprint: a private JWK carrying it does not match
+            # its own d (it may be refused); if it is taken, everything derived from it is derived from the true public key
+            from ..ref import b64 as _b64
+            raw = bytearray(_b64.dec(src["x"]))
+            raw[-1] |= 0x80
+            src["x"] = _b64.enc(bytes(raw))
         elif order != "given":
             # applications hold curve names in string enums, secrets in wrappers that hide them from logs: str subclasses whose str() is not
             # their content.  A JWK member IS its content.
@@ -101,6 +113,8 @@ def h_thumbprint(ctx):
                else obj.public_bytes(enc, ser.PublicFormat.SubjectPublicKeyInfo))
         return cls.import_key(raw, params)
     k = call(build)
+    if not k.ok and order.startswith("given, x with the bit"):
+        return Outcome("non-canonical-x-refused", [], nontrivial=(label, how, private, order))
     if not k.ok:
         return Outcome("import-failed", [viol(f"{kty} key cannot be built via {how}", f"{label}: {k.exc!r}")], nontrivial=(label, how, private))
     tp = call(k.value.thumbprint)
